@@ -144,6 +144,14 @@ package bindnode
 //@   after assignUInt let checked = true
 //@   ensures[C09] err == nil ==> defined(checked)
 
+// Every entry of a typed map is assembled into a Go value made for that entry (nothing an earlier
+// entry left behind can show through).
+//@ func (*_mapAssembler).AssembleValue() (va)
+//@   nosafety
+//@   requires w != nil && w.schemaType != nil
+//@   after Elem let entryval = result0
+//@   ensures[C01,C09] defined(entryval) && dyntype(va, "*_assembler") && unbox(va, "*_assembler").val == entryval
+
 // Union (type level): an unknown member name yields an error assembler.
 //@ func (*_unionAssembler).AssembleValue() (va)
 //@   nosafety
